@@ -155,6 +155,7 @@ def run(ck):
     ck.rule("C08.R14", "Layered::pick_level_hint / pick_interest: complete decision tables (every flag combination x hint/interest class) equal the reference composition", floor=2)
     ck.rule("C08.R15", "a published `always` is honoured: no filter bit survives an emission to make a later always-cached event skip a layer (bitmap typestate, as C07.R5)", floor=100)
     ck.rule("C08.R15s", "effect summaries behind C08.R15 (as C07.R5s)", floor=9)
+    ck.rule("C08.R16", "what a collector / layer / filter publishes when it does not override the summary methods: interest from its own `enabled` (never iff it says no), no level hint, `sometimes` for a per-layer filter, and no event-level veto", floor=9)
     ck.rule("C08.R8", "level hints and thresholds are compared by a correct total order (as C19.R1/R2/R4)", floor=60)
     ck.rule("C08.R1", "And/Or/Not: interest table sound w.r.t. enabled; hint is a sound bound", floor=6)
     ck.rule("C08.R2", "Option<F>: None is neutral, Some forwards", floor=4)
@@ -172,6 +173,7 @@ def run(ck):
     envfilter_interest(ck, F)
     inner_is_registry_rule(ck, F)
     pick_tables(ck, F)
+    provided_summaries(ck, F)
     # what a stack publishes as `always` is only true if the per-filter state every later emission reads is left clean
     C07.r5(ck, Facts("release"), rid="C08.R15")
     from rules import C09
@@ -927,3 +929,40 @@ def pick_tables(ck, F, rid="C08.R14"):
             ck.bad(rid, key, where(b.raw["sp"]), "the function could not be turned into a table (%s)" % (undec[0][1] if undec else "path enumeration truncated"), fn=b.path)
         else:
             ck.ok(rid, key, fn=b.path, detail="%d rows decided, %d not evaluable" % (len(keys) - len(undec), len(undec)))
+
+
+def provided_summaries(ck, F, rid="C08.R16"):
+    """The provided methods of Collect / Subscribe / Filter are the summaries of every implementation that leaves them
+    alone (most user-written ones). They must be the neutral element of each composition: a verdict derived from the
+    implementation's own `enabled`, "no opinion" for the level, "ask me every time" for a per-layer filter."""
+    T = {"Collect": "tracing_core::collect::Collect::", "Subscribe": "tracing_subscriber::subscribe::Subscribe::", "Filter": "tracing_subscriber::subscribe::Filter::"}
+
+    def rows(path):
+        b = F.body(path)
+        if b is None:
+            return None, None
+        return b, [([(show(c[0]), c[1]) for c in p.conds if c[0][0] != "const"], show(p.ret)) for p in PathEval(b).run() if p.end == "return"]
+    for tn in ("Collect", "Subscribe"):
+        b, rs = rows(T[tn] + "register_callsite")
+        key = "%s::register_callsite (provided): never iff enabled() is false, else always" % tn
+        if not ck.anchor(rid, key, b):
+            continue
+        ok = len(rs) == 2 and all(len(c) == 1 and c[0][0].startswith("enabled(arg1, arg2") for c, r in rs) and \
+            {(c[0][1] == 0, r) for c, r in rs} == {(True, "never()"), (False, "always()")}
+        if ok:
+            ck.ok(rid, key, fn=b.path)
+        else:
+            ck.bad(rid, key, where(b.raw["sp"]), "rows %s" % rs, fn=b.path)
+    for tn, m, want, why in (("Collect", "max_level_hint", "Option::None{}", "no opinion"), ("Subscribe", "max_level_hint", "Option::None{}", "no opinion"),
+                             ("Filter", "max_level_hint", "Option::None{}", "no opinion"), ("Collect", "event_enabled", "1", "no veto"),
+                             ("Subscribe", "event_enabled", "1", "no veto"), ("Filter", "event_enabled", "1", "no veto"),
+                             ("Subscribe", "enabled", "1", "a layer without a filter accepts everything"),
+                             ("Filter", "callsite_enabled", "sometimes()", "a per-layer filter that says nothing static is asked every time")):
+        b, rs = rows(T[tn] + m)
+        key = "%s::%s (provided) is %s (%s)" % (tn, m, want, why)
+        if not ck.anchor(rid, "%s::%s" % (tn, m), b):
+            continue
+        if rs == [([], want)]:
+            ck.ok(rid, key, fn=b.path)
+        else:
+            ck.bad(rid, key, where(b.raw["sp"]), "rows %s" % rs, fn=b.path)
